@@ -50,7 +50,7 @@ timer_error_t __wrap_platform_timer_start (platform_timer_t * timer, unsigned lo
 
 /* ---- script ------------------------------------------------------------ */
 #define MAXSTEP 512
-#define MAXCLI 32
+#define MAXCLI 64
 static char *steps[MAXSTEP];
 static int nsteps = 0, step_idx = 0, cycle_no = 0, trail = 0;
 static int console = 0;
